@@ -76,6 +76,39 @@ def body(c):
             if v: return v
         return ("c02:trace", json.dumps(ev)[:400])
     validate_trace(c, "Trace_Codec", "Trace_Codec.cfg", tpath, describe, heap="8g", env={"ALLOC_C0": ALLOC_C0, "ALLOC_K": ALLOC_K})
+    # ---- totality on deeply nested programs: one decode (+ display, execution, drop) per process, on the main
+    # thread and on a thread with the default 2 MiB stack; a stack overflow kills the process and is an outcome
+    import subprocess
+    deep = {}
+    for shape in ("injl", "take", "comp"):
+        for depth in ((1000, 20000, 200000) if q else (1000, 5000, 20000, 100000, 200000, 1000000)):
+            dp = os.path.join(c.work, "deep.bin")
+            g = subprocess.run([VH, "c20", "deepgen", shape, str(depth), dp], stdout=subprocess.PIPE, stderr=subprocess.PIPE, timeout=900)
+            if g.returncode != 0:
+                raise ToolError("could not generate the %s program of depth %d: %s" % (shape, depth, g.stderr.decode(errors="replace")[-300:]))
+            for place in ("main", "thread"):
+                c.evaluations += 1
+                try:
+                    pr = subprocess.run([VH, "c20", "deepdec", dp, place], stdout=subprocess.PIPE, stderr=subprocess.PIPE, timeout=900)
+                except subprocess.TimeoutExpired:
+                    c.report("c02:deep-timeout", "decoding %s nested %d deep on the %s thread did not finish in 900 s" % (shape, depth, place), {"shape": shape, "depth": depth, "place": place})
+                    continue
+                if pr.returncode == 0:
+                    cls = json.loads(pr.stdout.decode())["class"]
+                    deep["%s %d %s" % (shape, depth, place)] = cls
+                    if not (cls.startswith("ok") or cls.startswith("error")):
+                        c.report("c02:deep-outcome", "decoding %s nested %d deep: %s" % (shape, depth, cls), {"shape": shape, "depth": depth, "place": place})
+                    else:
+                        c.traces += 1
+                else:
+                    overflow = b"overflowed its stack" in pr.stderr
+                    deep["%s %d %s" % (shape, depth, place)] = "abort"
+                    # the recorded finding: structural unification of two deeply nested types recurses per level
+                    fp = "c02:deep-unification-overflow" if (overflow and shape == "take" and depth >= 10000) else "c02:deep-abort"
+                    c.report(fp, "decoding a %d-byte program (%s nested %d deep) on the %s thread killed the process (exit %d%s)" % (
+                        os.path.getsize(dp), shape, depth, place, pr.returncode, ", stack overflow" if overflow else ""),
+                        {"shape": shape, "depth": depth, "place": place, "stderr": pr.stderr.decode(errors="replace")[-300:]})
+    c.extra["deep_inputs"] = deep
     c.assumptions += ["allocation bound %d + %d per input byte (fixed 32 MiB initial cap of from_padded_bits included)" % (ALLOC_C0, ALLOC_K),
                       "time bound %d ms per call in a debug build" % MS_MAX,
                       "spec verdicts exist for the jet-free fragment; inputs containing jets are judged by the property's clauses only"]
